@@ -1236,7 +1236,58 @@ def list_paths(case, stream):
     return out
 
 
+def _vars(j, out):
+    if isinstance(j, dict):
+        if set(j.keys()) == {"var"}:
+            out.add(j["var"])
+        for k, v in j.items():
+            if k != "clo":
+                _vars(v, out)
+    elif isinstance(j, list):
+        for v in j:
+            _vars(v, out)
+    return out
+
+
+def _query_ok(q, is_rule):
+    if any(not p["terms"] for p in q["body"]):
+        return False
+    if not q["body"] and not q["exprs"]:
+        return False
+    if any(not e for e in q["exprs"]):
+        return False
+    if is_rule:
+        if not q["head"]["terms"] or not q["body"]:
+            return False
+        bound = _vars(q["body"], set())
+        return _vars(q["head"], set()) <= bound and _vars(q["exprs"], set()) <= bound
+    return True
+
+
+def print_item_ok(case):
+    """a shortened `print` / `params` item must still be an item of the grammar"""
+    k, it = case.get("kind"), case.get("item")
+    try:
+        if k == "fact":
+            return bool(it["terms"])
+        if k == "rule":
+            return _query_ok(it, True)
+        if k in ("check", "policy"):
+            return bool(it["queries"]) and all(_query_ok(q, False) for q in it["queries"])
+        facts_ok = all(f["terms"] for f in it.get("facts", []))
+        rules_ok = all(_query_ok(r, True) for r in it.get("rules", []))
+        checks_ok = all(c["queries"] and all(_query_ok(q, False) for q in c["queries"]) for c in it.get("checks", []))
+        pols_ok = all(c["queries"] and all(_query_ok(q, False) for q in c["queries"]) for c in it.get("policies", []))
+        if k == "authorizer" and not it.get("policies"):
+            return False
+        return facts_ok and rules_ok and checks_ok and pols_ok
+    except (KeyError, TypeError):
+        return False
+
+
 def still_fails(pid, stream, cand, im, mo, want_sig):
+    if stream in ("print", "params") and not print_item_ok(cand):
+        return None
     v = COMPARATORS[stream](cand, im, mo)
     why = v if v not in (None, "skip") else None
     if why is None:
@@ -1245,14 +1296,24 @@ def still_fails(pid, stream, cand, im, mo, want_sig):
     if not why:
         return None
     d = {"stream": stream, "case": cand, "impl": im, "model": mo, "why": why}
-    return d if signature(d) == want_sig else None
+    return d if (signature(d), fingerprint(why)) == want_sig else None
+
+
+def fingerprint(why):
+    """the reason of a failure without the data it quotes: a shortened case must fail for the same reason, not
+    merely in the same class (a shortened item that is no longer well formed fails differently)"""
+    import re
+    w = re.sub(r'input: \\?"(?:[^"\\]|\\.)*\\?"', 'input', why)
+    w = re.sub(r"\(text .*$", "", w, flags=re.S)
+    w = re.sub(r"[0-9a-f]{8,}|\d+", "_", w)
+    return w[:200]
 
 
 def shrink(d, rerun, budget=60, pid=None):
     """delta debugging on the lists of the case: an element is dropped when the shortened case still fails in the
     same way (same signature: stream, outcome classes, beginning of the reason) on a fresh run of both sides"""
     best = d
-    want = signature(d)
+    want = (signature(d), fingerprint(d["why"]))
     progress = True
     while progress and budget > 0:
         progress = False
